@@ -4,7 +4,8 @@ mod hash_union;
 mod models;
 mod panic;
 
-use syn::{Data, DeriveInput, Meta};
+use proc_macro2::{Ident, Span};
+use syn::{Data, DeriveInput, GenericParam, Meta};
 
 use super::TraitHandler;
 use crate::Trait;
@@ -31,4 +32,20 @@ impl TraitHandler for HashHandler {
             },
         }
     }
+}
+
+/// The name of the generic `Hasher` parameter of the generated `hash` method: `H`, unless the type
+/// itself has a generic parameter called so.
+pub(crate) fn hasher_ident(ast: &DeriveInput) -> Ident {
+    let mut name = String::from("H");
+
+    while ast.generics.params.iter().any(|param| match param {
+        GenericParam::Type(ty) => ty.ident == name,
+        GenericParam::Const(c) => c.ident == name,
+        GenericParam::Lifetime(_) => false,
+    }) {
+        name.push('_');
+    }
+
+    Ident::new(&name, Span::call_site())
 }
